@@ -24,6 +24,24 @@ def palette(rng):
     return pal
 
 
+def shorthand_leaf(rng, neg):
+    """Leaves whose bracket set is exactly the set of a shorthand (\\d, \\s, \\w parts): the simplification
+    paths of __process only run for these."""
+    pre = "AnyBut" if neg else "Any"
+    ws = [" ", "\t", "\n", "\r", "\x0b", "\x0c"]
+    return rng.choice([
+        [pre + "Between", "0", "9"],
+        [pre + "From"] + list("0123456789"),
+        [pre + "From"] + ws,
+        [pre + "From"] + ws + list("0123456789"),
+        [pre + "Between", "\t", "\r"],
+        [pre + "Between", "a", "z"],
+        [pre + "Between", "A", "Z"],
+        [pre + "From", "_"],
+        [pre + "From", " "],
+    ])
+
+
 def arg(rng, pal, tok_rate=0.15):
     if rng.random() < tok_rate:
         return ["tok", rng.choice(TOKS)]
